@@ -107,7 +107,8 @@ func (m memInfo) Sys() interface{}   { return nil }
 
 // rsc is an in-memory source. It deliberately exposes only Read/Seek/Close (no io.WriterTo) unless wt is set.
 type rsc struct {
-	r *bytes.Reader
+	r       *bytes.Reader
+	dataEOF bool
 }
 
 func (s rsc) Read(p []byte) (int, error) {
@@ -116,7 +117,11 @@ func (s rsc) Read(p []byte) (int, error) {
 			return 0, err
 		}
 	}
-	return s.r.Read(p)
+	n, err := s.r.Read(p)
+	if s.dataEOF && err == nil && s.r.Len() == 0 {
+		err = io.EOF // the last bytes arrive together with io.EOF, as the io.Reader contract allows (tar readers, stfs's own handles, network bodies do this)
+	}
+	return n, err
 }
 
 // srcSeams, when set, makes reads of harness-supplied archive sources observable/faultable (C10)
@@ -161,10 +166,13 @@ func membersSrc(ms []config.FileConfig) func() (config.FileConfig, error) {
 func fileMember(p string, content []byte, mode os.FileMode, mt time.Time) config.FileConfig {
 	return config.FileConfig{
 		GetFile: func() (io.ReadSeekCloser, error) {
+			if len(content)%3 == 1 {
+				return rsc{r: bytes.NewReader(content), dataEOF: true}, nil // a third of the sources deliver their last bytes with io.EOF
+			}
 			if sourceWriterTo && srcSeams == nil {
 				return rscWT{bytes.NewReader(content)}, nil
 			}
-			return rsc{bytes.NewReader(content)}, nil
+			return rsc{r: bytes.NewReader(content)}, nil
 		},
 		Info:    memInfo{name: p, size: int64(len(content)), mode: mode, mt: mt},
 		Path:    p,
